@@ -148,47 +148,7 @@ func tamper(x *mon.Ctx) {
 			if c == nil {
 				continue
 			}
-			c.Call("gcm sweep", func() {
-				s, err := newSubject(c.R, label)
-				if err != nil {
-					c.Fail("mismatch", "building the key: %v", err)
-					return
-				}
-				pw := password(c.R, "ascii")
-				der := sealP8(c, s, pw, cb, salt, wf)
-				if der == nil {
-					return
-				}
-				c.Detail("container", der)
-				c.Detail("password", pw)
-				k, _, err := pkcs8.ParsePrivateKey(der, pw)
-				if !decoded(c, "unaltered container", s, k, err, "") {
-					return
-				}
-				_, info, err := pbes.Decrypt(der, pw)
-				if err != nil {
-					c.Fail("mismatch", "the reference decoder cannot open the container: %v", err)
-					return
-				}
-				var prot []span
-				for _, p := range []struct {
-					n string
-					b []byte
-				}{{"salt", info.Salt}, {"nonce", info.IV}, {"ciphertext+tag", info.Data}} {
-					if sp, ok := spanOf(der, p.b, p.n); ok {
-						prot = append(prot, sp)
-					}
-				}
-				if len(prot) != 3 {
-					c.Inconclusive("protected spans not located")
-					return
-				}
-				kind := "gcm-pkcs8/" + cb.name[len("PBES2/"):]
-				sweep(c, kind, der, prot, s, func(m []byte) (any, error) {
-					k, _, err := pkcs8.ParsePrivateKey(m, pw)
-					return k, err
-				})
-			})
+			c.Call("gcm sweep", func() { gcmSweep(c, cb, salt, wf, label) })
 			c.End()
 		}
 	}
@@ -208,6 +168,49 @@ func tamper(x *mon.Ctx) {
 			}
 		}
 	}
+}
+
+// gcmSweep alters every byte of one GCM-protected PKCS#8 container.
+func gcmSweep(c *mon.Case, cb combo, salt, wf int, label string) {
+	s, err := newSubject(c.R, label)
+	if err != nil {
+		c.Fail("mismatch", "building the key: %v", err)
+		return
+	}
+	pw := password(c.R, "ascii")
+	der := sealP8(c, s, pw, cb, salt, wf)
+	if der == nil {
+		return
+	}
+	c.Detail("container", der)
+	c.Detail("password", pw)
+	k, _, err := pkcs8.ParsePrivateKey(der, pw)
+	if !decoded(c, "unaltered container", s, k, err, "") {
+		return
+	}
+	_, info, err := pbes.Decrypt(der, pw)
+	if err != nil {
+		c.Fail("mismatch", "the reference decoder cannot open the container: %v", err)
+		return
+	}
+	var prot []span
+	for _, p := range []struct {
+		n string
+		b []byte
+	}{{"salt", info.Salt}, {"nonce", info.IV}, {"ciphertext+tag", info.Data}} {
+		if sp, ok := spanOf(der, p.b, p.n); ok {
+			prot = append(prot, sp)
+		}
+	}
+	if len(prot) != 3 {
+		c.Inconclusive("protected spans not located")
+		return
+	}
+	kind := "gcm-pkcs8/" + cb.name[len("PBES2/"):]
+	sweep(c, kind, der, prot, s, func(m []byte) (any, error) {
+		k, _, err := pkcs8.ParsePrivateKey(m, pw)
+		return k, err
+	})
 }
 
 func envelopeSweep(c *mon.Case, label string) {
